@@ -221,15 +221,7 @@ impl Constant {
             Constant::String(s) => RcDoc::text("string")
                 .append(RcDoc::line())
                 .append(RcDoc::text("\""))
-                .append(RcDoc::text(
-                    String::from_utf8(
-                        s.as_bytes()
-                            .iter()
-                            .flat_map(|c| escape_default(*c).collect::<Vec<u8>>())
-                            .collect(),
-                    )
-                    .unwrap(),
-                ))
+                .append(RcDoc::text(escape_string(s)))
                 .append(RcDoc::text("\"")),
             Constant::Unit => RcDoc::text("unit")
                 .append(RcDoc::line())
@@ -283,15 +275,7 @@ impl Constant {
             Constant::Integer(i) => RcDoc::as_string(i),
             Constant::ByteString(bs) => RcDoc::text("#").append(RcDoc::text(hex::encode(bs))),
             Constant::String(s) => RcDoc::text("\"")
-                .append(RcDoc::text(
-                    String::from_utf8(
-                        s.as_bytes()
-                            .iter()
-                            .flat_map(|c| escape_default(*c).collect::<Vec<u8>>())
-                            .collect(),
-                    )
-                    .unwrap(),
-                ))
+                .append(RcDoc::text(escape_string(s)))
                 .append(RcDoc::text("\"")),
             Constant::Unit => RcDoc::text("()"),
             Constant::Bool(b) => RcDoc::text(if *b { "True" } else { "False" }),
@@ -368,6 +352,22 @@ impl Constant {
                 .append(RcDoc::text("]")),
         }
     }
+}
+
+/// Escape a string constant the way the parser's `character` rule reads it
+/// back: ASCII goes through `escape_default` (`\n`, `\"`, `\x1b`, ...) and
+/// everything else is printed as is, since `\xHH` denotes a single character
+/// rather than a byte of the UTF-8 encoding.
+fn escape_string(s: &str) -> String {
+    s.chars()
+        .flat_map(|c| {
+            if c.is_ascii() {
+                escape_default(c as u8).map(char::from).collect::<Vec<char>>()
+            } else {
+                vec![c]
+            }
+        })
+        .collect()
 }
 
 impl Type {
